@@ -31,11 +31,25 @@ RandomItem(n) == Item(RandomElement(PRICE), RandomElement(AMOUNT), RandomElement
 GStepR == /\ ~done /\ Len(hist) < MaxLen
           /\ IF conn = NoConn
              THEN \E S \in {RandomElement(SUBSET Markets)} : \E off \in {RandomElement(KeyOffs)} :
-                  SubscribeA(TheConn, S, off)
+                  \E d \in {RandomElement(S \cup {0})} : \E dk \in {IF d = 0 THEN 0 ELSE RandomElement({1, 2})} :
+                  SubscribeA(TheConn, S, off, d, dk)
              ELSE IF RandomElement(1..12) = 1
                   THEN DisconnectA
                   ELSE \E m \in {RandomElement(Markets)} : \E f \in {RandomItem(Len(hist))} :
-                       MessageSubscribedA(m, <<f>>) \/ MessageUnsubscribedA(m, <<f>>)
+                  \E buf \in {RandomElement(BOOLEAN)} :
+                       MessageSubscribedA(m, <<f>>, buf) \/ MessageUnsubscribedA(m, <<f>>, buf)
+          /\ hist' = Append(hist, last')
+          /\ UNCHANGED done
+
+\* repeated markets, exhaustively: Subscribe(S, off, d, dk) for every subset, every repeated market
+\* and both kinds of repetition, then one message for each market 1..NMarkets in turn (live and
+\* buffered alternating) - what is judged is the attribution of the markets around the repeated one
+FixedItem == Item(CHOOSE p \in PRICE : TRUE, CHOOSE a \in AMOUNT : TRUE, "buy", CHOOSE t \in TIME : TRUE)
+GStepD == /\ ~done /\ Len(hist) < MaxLen
+          /\ IF conn = NoConn
+             THEN Subscribe
+             ELSE \E m \in {Len(hist)} : \E buf \in {m % 2 = 0} :
+                       MessageSubscribedA(m, <<FixedItem>>, buf) \/ MessageUnsubscribedA(m, <<FixedItem>>, buf)
           /\ hist' = Append(hist, last')
           /\ UNCHANGED done
 
@@ -45,6 +59,7 @@ GFinish == /\ ~done /\ Len(hist) = MaxLen
 
 GSpec  == GInit /\ [][GStep \/ GFinish]_gvars
 GSpecR == GInit /\ [][GStepR \/ GFinish]_gvars
+GSpecD == GInit /\ [][GStepD \/ GFinish]_gvars
 
 Emit == done => PrintT(<<"SCN", ToJson([evs |-> hist])>>)
 =============================================================================
